@@ -32,6 +32,9 @@ func scenWriters(e *Env, args []string, r *rand.Rand) {
 		case 2:
 			l = 500 + r.Intn(3000)
 		}
+		if m["big"] == "1" && l < 1021 {
+			l = 1021 + r.Intn(3000)
+		}
 		b := make([]byte, 3+l)
 		r.Read(b)
 		b[0], b[1], b[2] = byte(w), byte(i>>8), byte(i)
@@ -51,7 +54,11 @@ func scenWriters(e *Env, args []string, r *rand.Rand) {
 	if m["pause"] != "" {
 		p.plugin.WriterPause = time.Duration(atoi(m["pause"], 0)) * time.Millisecond
 	}
-	e.serve()
+	if m["adv"] == "1" && dir == "in" {
+		e.serveAdversary()
+	} else {
+		e.serve()
+	}
 	c := p.bring(dir, "established", rhold, remoteID)
 	if c != nil {
 		if m["inside"] == "1" {
@@ -863,6 +870,20 @@ func scenAPIRace(e *Env, args []string, r *rand.Rand) {
 		return
 	}
 	done := make(chan struct{}, 2)
+	if args[0] == "close-add" {
+		// AddPeer lands while Close is tearing the first peer down (its OnClose takes 60 ms): whatever the order,
+		// nothing of the new peer may be running once Close and AddPeer have both returned
+		go func() {
+			time.Sleep(5 * time.Millisecond)
+			e.addPeer(2, PeerOpts{LocalAS: localAS, RemoteAS: remoteAS, Hold: 90, IdleHold: 20 * time.Millisecond})
+			done <- struct{}{}
+		}()
+		e.close()
+		<-done
+		time.Sleep(60 * time.Millisecond)
+		e.tr.log("-", "goroutines", fmt.Sprint(corebgpGoroutines()))
+		return
+	}
 	go func() { p.delete(); done <- struct{}{} }()
 	time.Sleep(5 * time.Millisecond)
 	switch args[0] {
@@ -1014,6 +1035,10 @@ func init() {
 				}
 				// keepalives interleave: hold 3 s => a KEEPALIVE every second while writers write slowly
 				out = append(out, fmt.Sprintf("writers:%s:k=2:n=40:end=cease:inside=1:pause=60:ms=2500:i=%d", dir, rep))
+				// large bodies, sparse writes, keepalives every second, the write-interleaving adversary on the connection
+				if dir == "in" {
+					out = append(out, fmt.Sprintf("writers:in:k=2:n=12:end=cease:inside=0:pause=250:big=1:adv=1:ms=2600:i=%d", rep))
+				}
 				// negotiated hold time 0 (no keepalive timer): writers and writes from inside callbacks must still work
 				out = append(out, fmt.Sprintf("writers:%s:k=2:n=20:end=cease:inside=1:rhold=0:ms=100:i=%d", dir, rep))
 				out = append(out, fmt.Sprintf("writers:%s:k=3:n=20:end=close:inside=0:rhold=0:ms=100:i=%d", dir, rep))
@@ -1137,6 +1162,8 @@ func init() {
 				out = append(out, fmt.Sprintf("shutdown:%s:listener-error:dir=out:st=%s", api, st))
 			}
 		}
+		// API calls racing each other and Close
+		out = append(out, scenarioLists["C20"](tier, r)...)
 		return out
 	}
 	scenarioLists["C11"] = func(tier string, r *rand.Rand) []string {
@@ -1223,7 +1250,7 @@ func init() {
 			n = 20
 		}
 		for i := 0; i < n; i++ {
-			for _, k := range []string{"delete-close", "delete-delete", "delete-add"} {
+			for _, k := range []string{"delete-close", "delete-delete", "delete-add", "close-add"} {
 				out = append(out, fmt.Sprintf("api-race:%s:i=%d", k, i))
 			}
 		}
